@@ -4,7 +4,8 @@ P=$1; shift
 cd /verif
 if ! git -C /repo diff --quiet; then echo "repo dirty"; exit 3; fi
 git -C /repo apply "$P" || { echo "patch does not apply"; exit 3; }
-trap 'git -C /repo checkout -- . ; git -C /repo clean -fdq pkg' EXIT
+EVBAK=$(mktemp -d /var/tmp/verif-evbak.XXXXXX); cp -a /verif/evidence/. $EVBAK/ 2>/dev/null
+trap 'git -C /repo checkout -- . ; git -C /repo clean -fdq pkg; cp -a $EVBAK/. /verif/evidence/; rm -rf $EVBAK; rm -rf /verif/replays' EXIT
 for id in "$@"; do
   out=$(./check $id ${TIER:-quick} 2>&1); rc=$?
   nv=$(echo "$out" | grep -c '^VIOLATION')
